@@ -205,11 +205,7 @@ def run(ctx):
         if r["ckey"] != ("automerge", "lib") or not norm_fn(p).startswith("automerge::autocommit::AutoCommit::"):
             continue
         b2 = cfg.body(r)
-        # only where the session's transaction is opened (the result is kept in self.transaction); empty_change() deliberately makes a
-        # merge commit over all current heads with transaction_args(None) and keeps nothing
-        keeps = any(st["d"]["p"] and st["d"]["p"][-1] == ".transaction" and b2.origin(st["d"]["l"], tuple(st["d"]["p"]))[0] == 1 for blk in b2.blocks for st in blk["st"])
-        if not keeps:
-            continue
+        # every change an AutoCommit makes, empty_change() included, is made on top of the heads the session shows (its isolation heads)
         for bi, t in b2.calls():
             if callee(t) != TARGS:
                 continue
@@ -221,7 +217,10 @@ def run(ctx):
             ok = from_iso and not drops
             ctx.ob("S2c", "%s|transaction_args(self.isolation)" % norm_fn(p).split("::")[-1], ok, t["sp"], "isolation heads handed on as they are" if ok else
                    "the transaction is opened with heads other than self.isolation (from the field: %s, adaptors that can drop it: %s): a transaction inside an isolated session can run unscoped" % (from_iso, drops))
-    ctx.floor("transaction_args calls in AutoCommit", n_ta, 1)
+    ctx.floor("transaction_args calls in AutoCommit", n_ta, 2)
+    check_isolated_chain(ctx, f)
+    check_scoped_marks(ctx, f)
+    check_scoped_deletes(ctx, f)
     # ---------------- S3 / S4
     C04.run(ctx)
     C07.run(ctx)
@@ -229,3 +228,73 @@ def run(ctx):
     ctx.decides = ("every clock argument passed by TransactionInner / BatchInsertion is self.scope; self.scope is the scope the transaction was opened with and is Some(isolation clock) exactly under isolation; "
                    "committed changes depend only on the chosen heads and the isolated chain (C04 re-run); reads with heads or under an open transaction are scoped (C07 re-run).")
     ctx.not_decided = "that the scoped queries return exactly the state at those heads; the state after integrate (merge semantics, C01)."
+
+
+def check_isolated_chain(ctx, f):
+    """S2d: an AutoCommit method that commits a change moves the isolation heads on to it (the isolated chain)"""
+    ctx.rule("S2d", "every AutoCommit method that commits a change (TransactionInner::commit / empty) also assigns self.isolation (the new change becomes the isolated head)")
+    n = 0
+    for p, r in sorted(f.fns.items()):
+        if r["ckey"] != ("automerge", "lib") or not norm_fn(p).startswith("automerge::autocommit::AutoCommit::") or "{closure" in p:
+            continue
+        b = cfg.body(r)
+        commits = [(bi, t) for bi, t in b.calls() if (callee(t) or "") in ("automerge::transaction::inner::TransactionInner::commit", "automerge::transaction::inner::TransactionInner::empty",
+                                                                           "automerge::transaction::inner::TransactionInner::commit_impl")]
+        if not commits:
+            continue
+        ctx.analysed_fns.add(p)
+        n += 1
+        stores = [st for blk in b.blocks if not blk.get("cleanup") for st in blk["st"] if st["d"]["p"] and st["d"]["p"][-1] == ".isolation" and b.origin(st["d"]["l"], tuple(st["d"]["p"]))[0] == 1]
+        ok = bool(stores)
+        ctx.ob("S2d", "%s|isolation heads follow the commit" % norm_fn(p).split("::")[-1], ok, commits[0][1]["sp"], "self.isolation assigned after the commit" if ok else
+               "a change is committed without moving the isolation heads: under isolation get_heads() keeps the old heads and the next change does not depend on this one")
+    ctx.floor("committing methods of AutoCommit", n, 3)
+
+
+def check_scoped_marks(ctx, f):
+    """S5: sticky-mark insertion spots come only from marks the transaction's scope covers"""
+    ctx.rule("S5", "InsertQuery::identify_valid_insertion_spot: a mark op becomes an insertion anchor (Loc::mark) only on the true edge of a test that the query's clock covers the op (Clock::covers, directly or inside an Option adaptor's closure)")
+    FN = [p for p in f.fns if norm_fn(p) == "automerge::op_set2::op_set::insert::InsertQuery::identify_valid_insertion_spot"]
+    if len(FN) != 1:
+        raise facts.AnchorMissing("InsertQuery::identify_valid_insertion_spot")
+    b = cfg.body(f.fns[FN[0]])
+    ctx.analysed_fns.add(FN[0])
+    cover_closures = {p for p in f.fns if p.startswith(FN[0] + "::{closure") and any((callee(t) or "").endswith("clock::Clock::covers") for _, t in cfg.body(f.fns[p]).calls())}
+
+    def covers(t):
+        c = callee(t) or ""
+        if c.endswith("clock::Clock::covers") or c.endswith("op_set::visible::vis"):
+            return True
+        if (norm_fn(t.get("fn")) or "").split("::")[-1] in ("is_none_or", "map_or", "is_some_and", "map_or_else") and t.get("args"):
+            return bool(b.provenance(t["args"][-1], through_calls=False).closures & cover_closures)
+        return False
+    in_scope = cfg.cond_edges(b, atom_call=covers)
+    anchors = [(bi, t) for bi, t in b.calls() if (callee(t) or "").endswith("insert::Loc::mark")]
+    ctx.floor("mark anchors in identify_valid_insertion_spot", len(anchors), 1)
+    for k, (bi, t) in util.ordinal_keys(anchors, lambda it: "identify_valid_insertion_spot|mark anchor"):
+        ok = any(b.edges_dominate([e], bi) for e in in_scope)
+        ctx.ob("S5", k, ok, t["sp"], "only marks inside the scope" if ok else
+               "a mark op outside the transaction's scope can become the reference element of an isolated insert: the committed change names an op that is not among its ancestors (a peer at exactly those heads panics applying it)")
+
+
+def check_scoped_deletes(ctx, f):
+    """S6: sibling agreement — every TransactionInner function that adds successors to document ops re-derives the element's winner under a scope"""
+    ctx.rule("S6", "sibling agreement: every function of TransactionInner that calls OpSet::add_succ_with_undo also calls OpSet::reset_top on the true edge of `self.scope.is_some()` and records the range in op.reset_range (values outside the scope survive and may win)")
+    n = 0
+    for p, r in sorted(f.fns.items()):
+        if r["ckey"] != ("automerge", "lib") or not norm_fn(p).startswith("automerge::transaction::inner::TransactionInner::") or "{closure" in p:
+            continue
+        b = cfg.body(r)
+        adds = [(bi, t) for bi, t in b.calls() if (callee(t) or "").endswith("op_set::OpSet::add_succ_with_undo")]
+        if not adds:
+            continue
+        ctx.analysed_fns.add(p)
+        scoped = cfg.cond_edges(b, atom_call=lambda t: (norm_fn(t.get("fn")) or "").endswith("Option::is_some") and ".scope" in ((b.operand_origin(t["args"][0]) or (0, ()))[1]))
+        resets = [bi for bi, t in b.calls() if (callee(t) or "").endswith("op_set::OpSet::reset_top")]
+        records = [bi for bi, blk in enumerate(b.blocks) for st in blk["st"] if st["d"]["p"] and st["d"]["p"][-1] == ".reset_range"]
+        for k, (bi, t) in util.ordinal_keys(adds, lambda it, nm=norm_fn(p).split("::")[-1]: "%s|successors added" % nm):
+            n += 1
+            ok = any(b.can_reach(bi, rb) and any(b.edges_dominate([e], rb) for e in scoped) for rb in resets) and any(b.can_reach(bi, rb) for rb in records)
+            ctx.ob("S6", k, ok, t["sp"], "winner re-derived under a scope, range recorded for undo" if ok else
+                   "ops are marked as succeeded under a scope without re-deriving the element's winner (reset_top): a value outside the isolated heads stays hidden in the live document while a reload shows it")
+    ctx.floor("add_succ_with_undo sites in TransactionInner", n, 3)
